@@ -238,14 +238,33 @@ Definition c06_analysis (c : ecase) : option string :=
   else if negb (list_eqb bytes_eqb (k_nlp_sig c) (k_nlp_sig2 c)) then Some "same_analysis_twice"
   else None.
 
+(* however long the query is, a command that contains one of its first four content words (with a usable idf) and passes
+   the filters is among the answers with enhancement on, at a limit that cuts nothing *)
+Definition c06_first_four (c : ecase) : option string :=
+  match extra c "nlp_on_big" with
+  | Some on =>
+      let E := env_of c in
+      let o := with_opts (k_opts c) (Some (big c)) (Some false) (Some true) false in
+      let n := Z.of_nat (List.length (k_cmds c)) in
+      let first4 := firstn 4 (dedup [] (tokenize (k_stop c) (k_q c))) in
+      let hits := fun (d : command) (t : bytes) =>
+        tf_any (doc_tf E d t) && negb (PrimFloat.ltb (e_idf E n (df E (k_cmds c) t)) (p_min_idf (e_params E))) in
+      if existsb (fun ic : nat * command => eligible E o (snd ic) && existsb (hits (snd ic)) first4 &&
+                                            negb (existsb (Z.eqb (Z.of_nat (fst ic))) (ids on)))
+                 (enumerate 0 (k_cmds c))
+      then Some "first_four_retained" else None
+  | None => None
+  end.
+
 Definition c06_check (c : ecase) : option string :=
   match c06_analysis c with Some s => Some s | None =>
+  match c06_first_four c with Some s => Some s | None =>
   match extra c "nlp_off_big", extra c "nlp_on_big" with
   | Some off, Some on =>
       if Nat.leb (content_words c) 10 && (o_terms_cap (k_opts c) <=? 0)%Z && negb (subset_ids (ids off) (ids on))
       then Some "superset" else None
   | _, _ => None
-  end end.
+  end end end.
 
 Definition score_of (r : list eres) (i : Z) : option float :=
   match find (fun x => Z.eqb (fst x) i) r with Some x => Some (snd x) | None => None end.
